@@ -109,19 +109,32 @@ func c13Build(rng *rand.Rand, sc *c13Scenario, sep string) (sts.Payload, map[str
 			size = int64(1 + rng.Intn(70000))
 		}
 		data := randBytes(rng, size)
+		same := i > 0 && rng.Intn(3) == 0
+		if same {
+			// another slice of the file the previous part belongs to (a resumed file's
+			// missing ranges, or a big file's chunks, share a payload): adjacent to the
+			// previous slice, after a gap, or before it
+			pb := bs[i-1]
+			name, size, data = pb.name, pb.size, files[pb.name]
+		}
 		files[name] = data
 		var off, ln int64
-		switch rng.Intn(4) {
-		case 0: // whole
-			off, ln = 0, size
-		case 1: // start
-			off, ln = 0, 1+rng.Int63n(size)
-		case 2: // end
-			off = rng.Int63n(size)
-			ln = size - off
-		default: // middle
-			off = rng.Int63n(size)
-			ln = 1 + rng.Int63n(size-off)
+		if same {
+			pb := bs[i-1]
+			pend := pb.off + pb.length
+			switch k := rng.Intn(4); {
+			case k == 0 && pend < size: // adjacent
+				off = pend
+				ln = 1 + rng.Int63n(size-off)
+			case k <= 2 && pend+1 < size: // after a gap
+				off = pend + 1 + rng.Int63n(size-pend-1)
+				ln = 1 + rng.Int63n(size-off)
+			default: // anywhere (also before, or overlapping)
+				off = rng.Int63n(size)
+				ln = 1 + rng.Int63n(size-off)
+			}
+		} else {
+			off, ln = c13Slice(rng, size)
 		}
 		b := &hBinnable{name: name, size: size, hash: md5hex(data), off: off, length: ln,
 			time: time.Unix(1600000000+rng.Int63n(1e8), rng.Int63n(1e9))}
@@ -149,6 +162,22 @@ func c13Build(rng *rand.Rand, sc *c13Scenario, sep string) (sts.Payload, map[str
 }
 
 // what the receiver should see as the name
+func c13Slice(rng *rand.Rand, size int64) (off, ln int64) {
+	switch rng.Intn(4) {
+	case 0: // whole
+		off, ln = 0, size
+	case 1: // start
+		off, ln = 0, 1+rng.Int63n(size)
+	case 2: // end
+		off = rng.Int63n(size)
+		ln = size - off
+	default: // middle
+		off = rng.Int63n(size)
+		ln = 1 + rng.Int63n(size-off)
+	}
+	return
+}
+
 func c13Translate(name, sep string) string {
 	if name == "" {
 		return ""
